@@ -287,11 +287,24 @@ def run_history(case):
       if not want_main <= set(tab[x] for x in names):
         res['problems'].append(tag + 'the SELECT reads a table no statement of this script writes')
       res['steps'].append({'main': idx[main], 'script': [idx[n] for n in names]})
+      stmts = [comp['preamble']] + comp['defines_and_exports'] + [comp['main']]
       try:
-        _, rows = lr.execute([comp['preamble']] + comp['defines_and_exports'] + [comp['main']], decode=False)
+        # the path of `logica.py <file> run <pred>`: common.sqlite3_logica.RunSqlScript on the whole script
+        import csv as _csv
+        import io as _io
+        real_out = lr.modules()[4].RunSqlScript(stmts, 'csv')
+        real_rows = sorted(list(x) for x in list(_csv.reader(_io.StringIO(real_out)))[1:])
+      except Exception as e:  # pylint: disable=broad-except
+        res['problems'].append(tag + 'sqlite3_logica.RunSqlScript (the path of `logica.py run`) fails on the script: %s: %s'
+                               % (type(e).__name__, e))
+        break
+      try:
+        _, rows = lr.execute(stmts, decode=False)
       except Exception as e:  # pylint: disable=broad-except
         res['problems'].append(tag + 'SQLite rejects the script: %s: %s' % (type(e).__name__, e))
         break
+      if real_rows != sorted(['' if v is None else str(v) for v in row] for row in rows):
+        res['problems'].append(tag + 'RunSqlScript returned %s, statement-by-statement execution %s' % (real_rows[:6], rows[:6]))
       if lr.bag(rows) != oracle[main]:
         res['problems'].append(tag + 'rows returned differ from the bag %s denotes: %s vs %s' % (main, lr.bag(rows)[:8], oracle[main][:8]))
       written |= set(names)
